@@ -110,6 +110,8 @@ def make_cases(rng, tier):
         cs.append({'label': label, 'c': c, 'rows': rows, 'faults': faults_for(c['kind'], auto), 'subs': list(subs), 'combos': list(combos), 'auto': auto, 'dvals': dvals})
     two = [('float32', 'u8'), ('float64', 'f64q')]
     add('cpa', dh.base_cfg('cpa', S=2, W=2), subs=('std', 'alt'), combos=two)
+    add('cpa-one-word', dh.base_cfg('cpa', S=2, W=1), subs=('std',), combos=two[:1])      # length-1 accumulators: a longer batch broadcasts against them instead of failing
+    add('dpa-one-word-one-sample', dh.base_cfg('dpa', S=1, W=1), combos=two[1:])
     add('dpa', dh.base_cfg('dpa', S=2, W=2), combos=two)
     add('part', dh.base_cfg('part', S=2, W=2, classes=(0, 1, 2)), subs=('anova', 'snr') if tier == 'quick' else ('anova', 'nicv', 'snr'), combos=[('float32', 'i16')])
     add('part-auto', dh.base_cfg('part', S=1, W=1, classes=tuple(range(9))), subs=('nicv',), combos=[('float32', 'i16')], auto=True, dvals=list(range(9)))
